@@ -75,6 +75,15 @@ class Gen:
             return self.lit()
         a = self.rexpr(scope, depth + 1)
         b = self.rexpr(scope, depth + 1)
+        if self.helper_sigs and r.random() < self.p.get('callexpr', 0.0):
+            name, kind = r.choice(self.helper_sigs)
+            if kind == 'rr':
+                return f'({a} + {name}({b}))'
+            if scope['list']:
+                xs = r.choice(scope['list'])
+                return f'({xs}[0] {r.choice(["+", "*"])} {name}({xs}, {b}))'
+        if self.p.get('globals') and r.random() < 0.15:
+            return r.choice(['G1', 'G2', '(G1 * G2)'])
         if c < 0.6:
             return f'({a} {r.choice(["+", "-", "*", "+", "*"])} {b})'
         if c < 0.66:
@@ -317,6 +326,8 @@ class Gen:
                 hn = f'{name}_h{j}'
                 parts.append(self.helper(hn, kind))
                 self.helper_sigs.append((hn, kind))
+        if self.p.get('clash'):
+            self.nvar = 0           # the caller reuses the helpers' local names
         scope = {'real': ['x', 'y', 'k'], 'list': ['xs'], 'int': ['k'], 'ro': ['k'], 'cond': False}
         deco = '@fp.fpy'
         if r.random() < 0.15:
@@ -333,7 +344,7 @@ class Gen:
         return '\n\n'.join(parts)
 
 
-HEADER = 'import fpy2 as fp\n\n'
+HEADER = 'import fpy2 as fp\n\nG1 = 1.25\nG2 = 3\n\n'
 
 
 def load_module(source: str, workdir: str, modname: str):
